@@ -78,7 +78,8 @@ def self_validation(pid):
   """Thorough tier: the seeded-fault catalogue must be detected and the neutral variants
   must stay silent (checker quality, never a verdict on /repo)."""
   jobs = [(pid, 'seeded', n, p) for n, p, _ in _variant_dirs('seeded', pid)]
-  jobs += [(pid, 'neutral', n, p) for n, p, _ in _variant_dirs('neutral', pid)]
+  jobs += [(pid, 'seeded', n, p) for n, p, _ in _variant_dirs(os.path.join('selftest', 'seeds'), pid)]
+  jobs += [(pid, 'neutral', n, p) for n, p, _ in _variant_dirs(os.path.join('selftest', 'neutral'), pid)]
   res = []
   if jobs:
     try:
